@@ -165,7 +165,13 @@ func watchdog() {
 			continue
 		}
 		if time.Since(since) > hangLimit && hangOut != nil {
-			hangOut.emit(map[string]any{"kind": "hang", "seed": curSeed.Load(), "stacks": common.BubbleStacksAll()})
+			stacks := common.BubbleStacksAll()
+			if (strings.Contains(stacks, "[runnable") || strings.Contains(stacks, "[running")) && time.Since(since) < 3*hangLimit {
+				// somebody in the bubble can run or is running: the machine is busy (other batches, the
+				// collector), nothing is stuck - a goroutine blocked on a lock would say so. Give it longer.
+				continue
+			}
+			hangOut.emit(map[string]any{"kind": "hang", "seed": curSeed.Load(), "stacks": stacks})
 			os.Exit(3)
 		}
 	}
